@@ -167,7 +167,11 @@ func c02sOne(ss *StreamSvc, env *streamEnv, p streamPlan, r *MethodResult, repor
 			fmt.Sprintf("the client endpoint returned no stream, %d messages could not be sent: %v (status %d, body %s)", len(sent), ex.OpenErr, ex.Status, truncate(ex.Body, 200)))
 		return sigs
 	}
-	if first == "client" {
+	// the service's view is authoritative when its script ran to its end (every Recv delivered a
+	// message or the final io.EOF): a stream that ended early there is a loss, whatever error the
+	// client met afterwards while writing to a connection the server had already left
+	srvClean := ex.Srv.Finished && !ex.Srv.Aborted
+	if first == "client" && !(srvClean && !seqEqual(sp, m.StreamPayload, sent, got)) {
 		o := ex.Cli.failedObs()
 		if o != nil && (o.Op == opSend || o.Op == opClose) {
 			outcome("client-op-error")
@@ -203,7 +207,7 @@ func c02sOne(ss *StreamSvc, env *streamEnv, p streamPlan, r *MethodResult, repor
 			}
 			if seqEqual(sp, m.StreamPayload, sent, got) {
 				outcome("server-end-error")
-				fail(fmt.Sprintf("C02 stream-end %s requests=%s observed=%s", feat, seqLenClass(len(sent)), streamErrClass(o.Err)),
+				fail(fmt.Sprintf("C02 stream-end %s observed=%s", feat, streamErrClass(o.Err)),
 					fmt.Sprintf("after the %d messages the client sent and its end of stream, server stream Recv returned %v instead of io.EOF", len(sent), o.Err))
 				return sigs
 			}
@@ -213,7 +217,7 @@ func c02sOne(ss *StreamSvc, env *streamEnv, p streamPlan, r *MethodResult, repor
 			return sigs
 		}
 	}
-	if first == "client" && len(got) < len(sent) {
+	if first == "client" && len(got) < len(sent) && !srvClean {
 		// the service could not read everything because the client side broke down first on an
 		// operation that is not a C02 matter
 		outcome("client-failed-first (a C03S matter)")
